@@ -19,7 +19,7 @@ MC_INVS = {
     "C14": ["NoPanic", "StraysRejected", "C14Undisturbed", "PermitAccounting"],
     "C15": ["C15Stopped", "C15OneNotification", "C15NothingAfter", "C15PermitBack", "PermitAccounting"],
     "C16": ["C16NoMpc", "C16NoOkOutput", "C16Rejected", "PermitAccounting"],
-    "C17": ["PermitAccounting", "ConcurrencyBound", "BudgetRestored", "C17CallerEnds"],
+    "C17": ["PermitAccounting", "ConcurrencyBound", "BudgetRestored", "C17CallerEnds", "C17TaskEndEnds"],
 }
 
 
